@@ -10,7 +10,7 @@ from checks.common import *
 REV = os.environ.get("VERIF_DB_REV", "11111111")
 
 
-def run_db(ctx, profile, n, steps, dump_every=8, variants="", maintenance=False, rev=None, sub="db", seed_off=0):
+def run_db(ctx, profile, n, steps, dump_every=8, variants="", maintenance=False, rev=None, sub="db", seed_off=0, watchdog_ms=0):
     exe, dlog = vlib.build_driver()
     if exe is None:
         raise RuntimeError("driver build failed: " + dlog)
@@ -26,7 +26,20 @@ def run_db(ctx, profile, n, steps, dump_every=8, variants="", maintenance=False,
         cmd += ["--variants", variants]
     if maintenance:
         cmd += ["--maintenance", "1"]
+    if watchdog_ms:
+        cmd += ["--watchdog-ms", str(watchdog_ms)]
+        for f in ("cases.txt", "impl.txt", "oracle.txt", "stats.json", "model.txt"):
+            if os.path.exists(os.path.join(w, f)):
+                os.remove(os.path.join(w, f))
     rc, out = vlib.sh(cmd, timeout=3000)
+    if rc == 3 and watchdog_ms:
+        # C19: the per-step watchdog killed the harness inside a query that did not return; the only
+        # output is the oracle line `timeout step=... history=[...]` (partial run = failure of class timeout)
+        lines = read_lines(os.path.join(w, "oracle.txt")) if os.path.exists(os.path.join(w, "oracle.txt")) else []
+        if not lines:
+            lines = ["timeout (watchdog exit, no oracle line) " + out[-500:]]
+        return dict(cases=0, disagreements=[], failures=[dict(cls=l.split(" ")[0], what=l[:6000]) for l in lines],
+                    dist={}, histories=0, nontrivial=0, samples=[], partial=True)
     if rc != 0:
         raise RuntimeError("harness failed: " + out[-2000:])
     rc, err = run_driver(exe, os.path.join(w, "cases.txt"), os.path.join(w, "model.txt"))
@@ -119,6 +132,34 @@ def merge_runs(r, s, prefix="small:"):
     return dict(cases=r["cases"] + s["cases"], disagreements=r["disagreements"] + s["disagreements"],
                 failures=r["failures"] + s["failures"], dist=dist, histories=r["histories"] + s["histories"],
                 nontrivial=r["nontrivial"] + s["nontrivial"], samples=r["samples"][:2] + s["samples"][:2])
+
+
+def add_big(ctx, r, n, steps=34, seed_off=7777):
+    """also run the `big` profile (bulk-built graphs of 15-45 nodes with tie-heavy keys; ordered searches cut inside large results,
+    path searches whose conditions fail on some elements, traversal-stopping conditions chained with or) and merge into r"""
+    b = run_db(ctx, "big", n, steps, sub="db_big", seed_off=seed_off)
+    out = dict(r)
+    out["cases"] = r["cases"] + b["cases"]
+    out["histories"] = r["histories"] + b["histories"]
+    out["nontrivial"] = r["nontrivial"] + b["nontrivial"]
+    out["disagreements"] = r["disagreements"] + b["disagreements"]
+    out["failures"] = r["failures"] + b["failures"]
+    out["samples"] = (r["samples"] + b["samples"])[:4]
+    d = dict(r["dist"])
+    for k, v in b["dist"].items():
+        d["big:" + k] = v
+    out["dist"] = d
+    return out
+
+
+def spec_level(r):
+    """The database model is the proved specification of these properties: a search / query result of the implementation that
+    differs from the model's IS a violation of the property with the history as failing input (DESIGN 2.2, spec-level)."""
+    fs = list(r["failures"])
+    for d in r["disagreements"]:
+        fs.append(dict(cls="model-mismatch", what="result differs from the proved model: step=%s model=%s impl=%s history=%s"
+                       % (d.get("case", "")[:1500], d.get("model", "")[:800], d.get("impl", "")[:800], " ;; ".join(d.get("history", []))[:6000])))
+    return fs
 
 
 if __name__ == "__main__":
